@@ -328,7 +328,7 @@ func genMavenManifest(rt *rapid.T, u []Pkg, mode string) Manifest {
 		if mode == "update" && d.V != t && strings.HasPrefix(d.V, "[") && chance(rt, l+".deadrange", 1, 8) {
 			d.V = "[900.0,901.0)" // a range none of the listed versions satisfies
 		}
-		if d.V == t && chance(rt, l+".prop", 1, 4) {
+		if d.V == t && chance(rt, l+".prop", 1, 3) {
 			// version through a property; now and then a property another dependency already uses
 			shared := false
 			for _, pr := range pom.Props {
@@ -373,15 +373,35 @@ func genMavenManifest(rt *rapid.T, u []Pkg, mode string) Manifest {
 			pom.Mgmt = append(pom.Mgmt, d)
 		}
 	}
-	if mode == "update" && len(directs) > 0 && chance(rt, "hasprofile", 1, 2) {
+	if mode == "update" && len(directs) > 0 && chance(rt, "hasprofile", 2, 3) {
 		pf := Profile{ID: "extra", Active: chance(rt, "profactive", 1, 2)}
 		np := draw(rt, "nprofdeps", 1, 1, 2)
 		pused := map[int]bool{}
 		for k := 0; k < np; k++ {
 			l := fmt.Sprintf("pf%d", k)
 			i := directs[rapid.IntRange(0, len(directs)-1).Draw(rt, l+".dup")]
-			if chance(rt, l+".other", 1, 3) {
+			if chance(rt, l+".other", 1, 2) {
 				i = rapid.IntRange(0, len(u)-1).Draw(rt, l+".pkg")
+			}
+			if len(pom.Props) > 0 && chance(rt, l+".byprop", 1, 2) {
+				// prefer a package that has the version one of the project-wide properties holds
+				// (so that the profile can take its version from that property)
+				pr := pom.Props[rapid.IntRange(0, len(pom.Props)-1).Draw(rt, l+".byprop.p")]
+				var cand []int
+				for j := range u {
+					if hasVersion(&u[j], pr.V) && !used[j] {
+						cand = append(cand, j)
+					}
+				}
+				if len(cand) > 0 {
+					i = cand[rapid.IntRange(0, len(cand)-1).Draw(rt, l+".byprop.i")]
+					if !pused[i] {
+						pused[i] = true
+						g, a := split(u[i].Name)
+						pf.Deps = append(pf.Deps, MDep{G: g, A: a, V: "${" + pr.K + "}"})
+						continue
+					}
+				}
 			}
 			if pused[i] {
 				continue
